@@ -569,6 +569,26 @@ impl<T: Elem> World<T> {
 
     fn exec_call(&self, t: &mut TCtx<T>, op: &Op) {
         let Op::Call { inst, entry, k, input, scratch_extra, scratch_fill, out_fill, place, dft_ref } = op else { unreachable!() };
+        self.do_call(t, inst, entry, *k as usize, input, scratch_extra, scratch_fill, out_fill, place, dft_ref)
+    }
+
+    /// `BigBatch`: one well-shaped call over so many chunks that the buffers reach `target_elems` elements (bulk paths
+    /// keyed on the total size of a call rather than on the transform length), judged like any other call.
+    fn exec_bigbatch(&self, t: &mut TCtx<T>, op: &Op) {
+        let Op::BigBatch { inst, entry, target_elems, seed, place } = op else { unreachable!() };
+        let Some(fft) = self.resolve(t, *inst) else {
+            self.count("skipped.no-instance", 1);
+            return;
+        };
+        let n = fft.len().max(1);
+        let k = ((*target_elems as usize) / n).clamp(1, 1 << 18);
+        self.count("op.big-batch", 1);
+        self.do_call(t, inst, entry, k, &InputSpec { seed: *seed, kind: InputKind::Dense }, &0, &Fill::Zero, &Fill::NaN, place, &false)
+    }
+
+    #[allow(clippy::too_many_arguments)]
+    fn do_call(&self, t: &mut TCtx<T>, inst: &InstRef, entry: &Entry, k: usize, input: &InputSpec, scratch_extra: &u32, scratch_fill: &Fill, out_fill: &Fill, place: &Place, dft_ref: &bool) {
+        let k = &k;
         let Some(fft) = self.resolve(t, *inst) else {
             self.count("skipped.no-instance", 1);
             return;
@@ -725,14 +745,20 @@ impl<T: Elem> World<T> {
     }
 
     fn exec_foreign(&self, t: &mut TCtx<T>, op: &Op) {
-        let Op::Foreign { pk, len, dir, entry, k, seed, place } = op else { unreachable!() };
-        let r = if T::NAME == "f32" { foreign_call::<f64>(*pk, *len, *dir, *entry, *k, *seed, *place) } else { foreign_call::<f32>(*pk, *len, *dir, *entry, *k, *seed, *place) };
+        let Op::Foreign { pk, len, dir, entry, k, seed, place, same_type } = op else { unreachable!() };
+        let r = if *same_type {
+            foreign_call::<T>(*pk, *len, *dir, *entry, *k, *seed, *place)
+        } else if T::NAME == "f32" {
+            foreign_call::<f64>(*pk, *len, *dir, *entry, *k, *seed, *place)
+        } else {
+            foreign_call::<f32>(*pk, *len, *dir, *entry, *k, *seed, *place)
+        };
         self.count("op.foreign-type-call", 1);
         match r {
             Ok(h) => t.log.add(h),
             Err((kind, detail)) => {
                 t.log.add(0xf0e1);
-                let what = format!("call on a {} transform ({:?} len={} {:?} {:?} k={}) between this world's {} calls: {}", if T::NAME == "f32" { "f64" } else { "f32" }, pk, len, dir, entry, k, T::NAME, detail);
+                let what = format!("call on a {} transform ({:?} len={} {:?} {:?} k={}) between this world's {} calls: {}", if *same_type { T::NAME } else if T::NAME == "f32" { "f64" } else { "f32" }, pk, len, dir, entry, k, T::NAME, detail);
                 match kind {
                     "skip" => self.count("skipped.foreign", 1),
                     "canary" => self.report(t, "c03.canary-overwritten", what),
@@ -861,8 +887,12 @@ impl<T: Elem> World<T> {
         let has_out = matches!(entry, Entry::OutOfPlace | Entry::Immut);
         let ofills: &[Fill] = if has_out { &FILLS } else { &FILLS[..1] };
         let mut pi = 0usize;
+        // the order of the grid is rotated by the case's seed: which workspace contents the *first* call on a fresh instance
+        // meets must not always be zeros (state an instance derives from its first call would otherwise always be benign)
+        let rot = (input.seed % FILLS.len() as u64) as usize;
+        let sfills: Vec<Fill> = (0..FILLS.len()).map(|i| FILLS[(i + rot) % FILLS.len()]).collect();
         for (li, &sl) in lens.iter().enumerate() {
-            for &sf in FILLS.iter() {
+            for &sf in sfills.iter() {
                 for &of in ofills {
                     // exact-length scratch always ends on a guard page
                     let place = if li == 0 { Place::Right } else { crate::arena::PLACES[pi % 4] };
@@ -1234,6 +1264,7 @@ impl<T: Elem> World<T> {
             Op::SharedImmut { .. } => self.exec_shared_immut(t, op),
             Op::HostCheck => self.exec_hostcheck(t),
             Op::Foreign { .. } => self.exec_foreign(t, op),
+            Op::BigBatch { .. } => self.exec_bigbatch(t, op),
         }
         // bounded liveness: a call that passed more scheduling points than any terminating call of its size can
         let hits = sched::take_budget_hits();
@@ -1284,6 +1315,7 @@ pub fn op_name(op: &Op) -> &'static str {
         Op::ShapeGrid { .. } => "ShapeGrid",
         Op::Crash { .. } => "Crash",
         Op::Foreign { .. } => "Foreign",
+        Op::BigBatch { .. } => "BigBatch",
         Op::SplitChunk { .. } => "SplitChunk",
         Op::Poison { .. } => "Poison",
         Op::SharedImmut { .. } => "SharedImmut",
